@@ -379,6 +379,33 @@ class C01(Check):
                                           {'got_n': len(got) if isinstance(got, list) else got[:200], 'expected_n': 300})
                 finally:
                     os.unlink(path)
+            # version-3 dumps whose chunk length words count the records only (64 n, without the 8 bytes in front of them), in 1..3 chunks;
+            # and every combination of header time-base words (numer / denom zero and non-zero, minutes-west 0, 60, 2^32-60 = east of
+            # Greenwich as the unsigned word the header stores, 1440, 2^31) through the parser and the facade
+            from pykdebugparser.pykdebugparser import PyKdebugParser as _F
+            for chunks in ([recs], [recs[:1], recs[1:]], [recs[:2], recs[2:]], [recs[:1], recs[1:2], recs[2:]]):
+                for with8 in (False, True):
+                    try:
+                        got = events(B.v3([(1, 2, 'a')], chunks, with8=with8))
+                    except Exception as ex:
+                        got = repr(ex)
+                    acc.case(nontrivial=True, transitions=3)
+                    if got != exp:
+                        acc.violation('record-decoded-differently-through-container:v3-chunk-length-' + ('64n+8' if with8 else '64n'), {'kind': 'container-chunklen', 'chunks': [len(c) for c in chunks], 'with8': with8},
+                                      {'got': repr(got)[:200]})
+            for numer, denom in ((0, 0), (125, 3), (1, 1), (0, 3)):
+                for mw in (0, 60, 2 ** 32 - 60, 1440, 2 ** 31, 2 ** 32 - 1):
+                    for dst in (0, 1):
+                        blob = B.v3([(1, 2, 'a')], [recs[:1], recs[1:]], header_kw=dict(numer=numer, denom=denom, mw=mw, dst=dst))
+                        for via in ('parser', 'facade'):
+                            try:
+                                got = events(blob) if via == 'parser' else [(e.timestamp, e.data, tuple(e.values), e.tid, e.debugid, e.eventid, e.func_qualifier) for e in _F().kevents(io.BytesIO(blob))]
+                            except Exception as ex:
+                                got = repr(ex)
+                            acc.case(nontrivial=True, transitions=3)
+                            if got != exp:
+                                acc.violation('record-decoded-differently-through-container:v3-header-time-words', {'kind': 'container-v3-header', 'numer': numer, 'denom': denom, 'minutes_west': mw, 'via': via},
+                                              {'got': repr(got)[:200]})
             # a dump cut in the middle of a record (parsing it raises), then a complete dump, in the same process
             for cut in (1, 20, 63, 64 + 31):
                 whole = B.v2([], 0, [P[0], P[1], P[2]])
